@@ -52,6 +52,26 @@ func (testSrv) Unary(ctx context.Context, req *testproto.UnaryRequest) (*testpro
 
 func (testSrv) ServerStream(req *testproto.ServerStreamRequest, s grpc.ServerStreamingServer[testproto.ServerStreamResponse]) error {
 	_ = s.SetHeader(md("h", "ss"))
+	if req.NumRes%3 == 1 {
+		// a helper goroutine of the handler keeps adding header metadata while the handler itself sends the headers
+		// (explicitly or with the first message): SetHeader simply fails once they are out, it must not race
+		stop, done := make(chan struct{}), make(chan struct{})
+		go func() {
+			defer close(done)
+			for i := 0; ; i++ {
+				select {
+				case <-stop:
+					return
+				default:
+				}
+				_ = s.SetHeader(md("hx", fmt.Sprint(i)))
+				if i%8 == 7 {
+					runtime.Gosched()
+				}
+			}
+		}()
+		defer func() { close(stop); <-done }()
+	}
 	if req.NumRes%2 == 0 {
 		_ = s.SendHeader(md("h2", "sent"))
 	}
@@ -310,6 +330,33 @@ func buildWrap(rng *vk.Rand, nOps int) *Prog {
 				res, err := client.Unary(ctx, &testproto.UnaryRequest{Msg: msg, SimulateError: serr}, grpc.Header(&h), grpc.Trailer(&t))
 				g.err(err)
 				g.sink += readMsg(res) + readMD(h) + readMD(t)
+			})
+		case w < 28:
+			// many short server-streaming calls whose handler has a helper goroutine adding header metadata while the
+			// handler sends the headers; the client reads the headers as soon as they are there and again at the end
+			reps := rng.Range(20, 60)
+			p.add(gi, "wrap.ServerStream/header-race", func(g *G) {
+				for k := 0; k < reps; k++ {
+					ctx, cancel := context.WithCancel(context.Background())
+					st, err := client.ServerStream(ctx, &testproto.ServerStreamRequest{NumRes: []int32{1, 4}[k%2]})
+					if err != nil {
+						g.errs++
+						cancel()
+						continue
+					}
+					h, _ := st.Header()
+					g.sink += readMD(h)
+					for {
+						res, err := st.Recv()
+						if err != nil {
+							break
+						}
+						g.sink += readMsg(res)
+					}
+					h, _ = st.Header()
+					g.sink += readMD(h) + readMD(st.Trailer())
+					cancel()
+				}
 			})
 		case w < 50:
 			n := int32(rng.Range(0, 5))
